@@ -320,6 +320,32 @@ func runFidelity(r *core.Run) {
 			})
 		}
 	}
+	// ... and with the names spread over the two levels in every way: a name on one level that is a proper prefix
+	// of a name on the other level must not capture its placeholder (request level wins for EQUAL names only)
+	for mask := 0; mask < 8; mask++ {
+		mask := mask
+		names := []string{"id", "idx", "i"}
+		vals := []string{"A", "B", "I"}
+		lv := func(k int) string {
+			if mask&(1<<k) != 0 {
+				return "client"
+			}
+			return "request"
+		}
+		cs := fidCase{"path-param-prefix-names-across-levels", fmt.Sprintf("id=%s,idx=%s,i=%s", lv(0), lv(1), lv(2)), "", ""}
+		do(cs, func(cl *client.Client, rq *client.Request) string {
+			for k, n := range names {
+				if mask&(1<<k) != 0 {
+					cl.SetPathParam(n, vals[k])
+				} else {
+					rq.SetPathParam(n, vals[k])
+				}
+			}
+			return "http://srv.test/u/:id/:idx/:i"
+		}, func(s seen) (string, bool) {
+			return "path parameters whose names share a prefix and are configured on different levels are not all substituted by their own values", s.Path == "/u/A/B/I"
+		})
+	}
 	// form fields, files and bodies (request level only)
 	for _, v := range fidValues {
 		v := v
